@@ -8,9 +8,11 @@ def tup(n):
     return "Tuple[" + ", ".join(["int"] * max(1, n)) + "]"
 
 
-def lay(mode, n, l, k, leader, kind, timeout):
-    return vf.CH(f"C04.{'d re-indent' if mode == 'indent' else 'e CRLF'} {kind} lines={n}x{l} indent={k} leader={leader}", "c04_layout.py",
-                 dict(MODE=mode, N=n, L=l, K=k, LEADER=leader, KIND=kind, NCP=n * l, IT=tup(k)), timeout=timeout, encodes=ENC,
+def lay(mode, n, l, k, leader, kind, timeout, lens=None, k2=None):
+    lens = tuple(lens) if lens is not None else (l,) * n
+    k2 = k if k2 is None else k2
+    return vf.CH(f"C04.{'d re-indent' if mode == 'indent' else 'e CRLF'} {kind} line lengths={lens} indent={k}->{k2} leader={leader}", "c04_layout.py",
+                 dict(MODE=mode, N=len(lens), L=l, K=k, K2=k2, LEADER=leader, KIND=kind, NCP=max(1, sum(lens)), LENS=lens, IT=tup(max(k, k2))), timeout=timeout, encodes=ENC,
                  symbolic="body line texts (arbitrary code points), the characters (space/tab) of both indentations",
                  bound=f"{n} body lines of {l} chars, indent width {k}; opening line holds only '#[[['")
 
@@ -24,11 +26,25 @@ def build(tier):
     for (n, l, k, leader, kind) in ([(2, 2, 2, True, "function"), (2, 2, 1, False, "set"), (1, 3, 3, True, "cpp_member")] if quick else
                                     [(3, 3, 2, True, "function"), (2, 2, 2, False, "set"), (2, 4, 3, True, "cpp_member"), (1, 3, 4, False, "generic"), (3, 2, 1, True, "cpp_class")]):
         obs.append(lay("indent", n, l, k, leader, kind, t))
+    # blocks with physically empty lines (not indented, no leader), e.g. before a literal block inside an indented member doccomment
+    obs.append(lay("indent", 3, 2, 2, True, "cpp_member", t, lens=(2, 0, 2), k2=0))
+    obs.append(lay("indent", 2, 2, 3, True, "function", t, k2=1))
+    obs.append(lay("indent", 3, 2, 2, True, "cpp_member", t, lens=(2, 0, 2)))
+    obs.append(lay("indent", 3, 2, 1, False, "function", t, lens=(1, 0, 1)))
     for (n, l, k, leader, kind) in ([(2, 2, 0, True, "function"), (1, 2, 2, True, "set")] if quick else
                                     [(3, 3, 0, True, "function"), (2, 3, 2, True, "set"), (2, 3, 1, True, "cpp_attr"), (2, 2, 0, False, "macro")]):
         obs.append(lay("crlf", n, l, k, leader, kind, t))
     # C04.c letter case of command names and C04.f token positions: symbolic in every inductive-step shard (oracle ignores them)
     obs += steps.step_obligations("C04.c/f", ["function", "set", "cpp_class", "cpp_end_class", "endmacro", "ct_add_test", "option"], tier, 1, 1, symargs=False)
+    # C04.b arguments spread over several lines (symbolic line/column of every argument token): same generic entry
+    for st in ([['s', ['s', 's'], 's'], ['s', ['s', ['s']], ['s'], 's']]):
+        nleaves = lambda x: sum(nleaves(y) if isinstance(y, list) else 1 for y in x)
+        ntok = lambda x: sum((2 + ntok(y)) if isinstance(y, list) else 1 for y in x)
+        for ml in (False, True):
+            obs.append(vf.CH(f"C04.b generic invocation {st}, {'one token per line' if ml else 'one line'}", 'c02_generic.py',
+                             dict(MULTILINE=ml, STRUCT=st, L=2, NCP=nleaves(st) * 2, NTOK=ntok(st), PT='Tuple[' + ', '.join(['int'] * ntok(st)) + ']'), timeout=t,
+                             encodes=['cminx.aggregator.DocumentationAggregator.process_generic_command', 'GenericCommandDocumentation.process'],
+                             symbolic='argument texts; line and column of every argument token', bound=f'argument structure {st}'))
     # C04.f token positions: whole sequences with symbolic start lines (several commands may share a line): output independent of them
     obs += seqs.seq_obligations("C04.f", ["option", "function", "endfunction", "set", "cpp_class", "cpp_end_class"] if quick else
                                 ["option", "function", "endfunction", "set", "cpp_class", "cpp_end_class", "cpp_attr", "add_test", "message", "ct_add_test"],
